@@ -27,7 +27,6 @@ type MessageHandler interface {
 }
 
 func (sm *storedMessages) add(msg *IncMessage, epoch uint64) {
-	verifYield("add")
 	sm.lock.Lock()
 	defer sm.lock.Unlock()
 
@@ -132,50 +131,36 @@ func (b *Box) HandleMessage(msg *IncMessage) {
 	}
 }
 
+// getOrCreateMessagesByTopic returns the pending messages of the given topic, creating the entry if needed.
+// The caller must hold the lock for writing.
 func (b *Box) getOrCreateMessagesByTopic(topic []byte) *storedMessages {
-	b.initialize()
-
-	verifYield("getOrCreate.read")
-	b.lock.RLock()
 	messages, exists := b.pendingMessages[string(topic)]
-	b.lock.RUnlock()
-
-	if exists {
-		return messages
-	}
-
-	verifYield("getOrCreate.write")
-	b.lock.Lock()
-	defer b.lock.Unlock()
-
-	messages, exists = b.pendingMessages[string(topic)]
 	if !exists {
 		messages = &storedMessages{logger: b.Logger, messageCountPerSender: make(map[uint16]int)}
+		b.pendingMessages[string(topic)] = messages
 	}
 
-	b.pendingMessages[string(topic)] = messages
 	return messages
 }
 
 func (b *Box) storeOrForward(msg *IncMessage) {
 	b.initialize()
 
-	if b.hasStartedSending(msg.Topic) {
+	// Deciding whether the topic has started and storing the message must be a single critical section.
+	// Otherwise a Send on this topic may run in between, in which case the message is stored in an entry
+	// that was already drained (and is lost, or stuck until some later Send on the topic).
+	verifYield("storeOrForward")
+	b.lock.Lock()
+
+	if _, started := b.startedSending[string(msg.Topic)]; started {
+		b.lock.Unlock()
 		verifYield("storeOrForward.forward")
 		b.MessageHandler.HandleMessage(msg)
 		return
 	}
 
-	var tooManyTopicsFromSender bool
-
-	verifYield("storeOrForward.limit")
-	b.lock.RLock()
-	if activeTopicsFromSource, exists := b.totalInFlightTopicsBySender[msg.Source]; exists {
-		tooManyTopicsFromSender = len(activeTopicsFromSource) > b.MaxInFlightTopicsBySender
-	}
-	b.lock.RUnlock()
-
-	if tooManyTopicsFromSender {
+	if activeTopicsFromSource, exists := b.totalInFlightTopicsBySender[msg.Source]; exists && len(activeTopicsFromSource) > b.MaxInFlightTopicsBySender {
+		b.lock.Unlock()
 		b.Logger.Warnf("Received too many topics from %d (limit is %d)", msg.Source, b.MaxInFlightTopicsBySender)
 		return
 	}
@@ -184,13 +169,13 @@ func (b *Box) storeOrForward(msg *IncMessage) {
 
 	messages := b.getOrCreateMessagesByTopic(msg.Topic)
 	messages.add(msg, atomic.LoadUint64(&b.currentGCEpochNum))
+
+	b.lock.Unlock()
 }
 
+// markTopicForSender records that the sender has an in-flight message for the topic.
+// The caller must hold the lock for writing.
 func (b *Box) markTopicForSender(msg *IncMessage) {
-	verifYield("markTopicForSender")
-	b.lock.Lock()
-	defer b.lock.Unlock()
-
 	if _, exists := b.totalInFlightTopicsBySender[msg.Source]; !exists {
 		b.totalInFlightTopicsBySender[msg.Source] = make(map[string]struct{})
 	}
@@ -204,18 +189,6 @@ func (b *Box) initialize() {
 		b.totalInFlightTopicsBySender = make(map[uint16]map[string]struct{})
 		b.startClock()
 	})
-}
-
-func (b *Box) hasStartedSending(topic []byte) bool {
-	b.initialize()
-
-	verifYield("hasStartedSending")
-	b.lock.RLock()
-	defer b.lock.RUnlock()
-
-	_, exists := b.startedSending[string(topic)]
-
-	return exists
 }
 
 func (b *Box) maybeGC() {
